@@ -77,46 +77,46 @@ theorem trans_nextFireTime :
   rw [zoneLoop_mono f z _ _ csmFuel _ fuel (by omega) hne]
   rfl
 
-/-! ## C14 for the translated `NextFireTime` (arbitrary location) -/
+/-! ## C14 for the translated `NextFireTime` (arbitrary location, every int64 `prev`: `hmin`, `hmax`) -/
 
 /-- C14 soundness -/
-theorem C14_sound_transCron (hp : 0 ≤ prev) (r : Int)
+theorem C14_sound_transCron (r : Int)
     (h : CronTrigger.NextFireTime goTime goClock (locOfZone z) ct prev fuel = some (r, none)) :
     r % 1000000000 = 0 ∧ prev < r ∧ Matches f (reading z (r / 1000000000)) := by
   rw [trans_nextFireTime f hwf z hz ct hct prev hmin hmax fuel hfuel] at h
-  exact C14_sound f hwf z prev hp hz r (ofOutcome_ok _ r h)
+  exact C14_sound f hwf z prev hmin hz r (ofOutcome_ok _ r h)
 
 /-- C14 no-miss: a matching local reading that was passed over cannot be named after `prev` -/
-theorem C14_no_miss_transCron (hp : 0 ≤ prev) (r : Int)
+theorem C14_no_miss_transCron (r : Int)
     (h : CronTrigger.NextFireTime goTime goClock (locOfZone z) ct prev fuel = some (r, none))
     (L : Civil) (hL : Matches f L)
     (h1 : Civil.lexLt (reading z (prev / 1000000000)) L)
     (h2 : Civil.lexLt L (reading z (r / 1000000000))) :
     ∀ u ∈ cands z (prev / 1000000000) L.toSeconds, ¬ Fires z (prev / 1000000000) L.toSeconds u := by
   rw [trans_nextFireTime f hwf z hz ct hct prev hmin hmax fuel hfuel] at h
-  exact C14_no_miss f hwf z prev hp hz r (ofOutcome_ok _ r h) L hL h1 h2
+  exact C14_no_miss f hwf z prev hmin hz r (ofOutcome_ok _ r h) L hL h1 h2
 
 /-- C14 expiry: `ErrTriggerExpired` only when no matching reading ahead can be named after `prev` -/
-theorem C14_expiry_transCron (hp : 0 ≤ prev) (r : Int) (e : String)
+theorem C14_expiry_transCron (r : Int) (e : String)
     (h : CronTrigger.NextFireTime goTime goClock (locOfZone z) ct prev fuel = some (r, some e))
     (L : Civil) (hL : Matches f L) (h1 : Civil.lexLt (reading z (prev / 1000000000)) L) :
     ∀ u ∈ cands z (prev / 1000000000) L.toSeconds, ¬ Fires z (prev / 1000000000) L.toSeconds u := by
   rw [trans_nextFireTime f hwf z hz ct hct prev hmin hmax fuel hfuel] at h
-  exact C14_expiry f hwf z prev hp hz (ofOutcome_expired _ r e h) L hL h1
+  exact C14_expiry f hwf z prev hmin hz (ofOutcome_expired _ r e h) L hL h1
 
 /-- C14 termination: the translated retry loop ends (with any fuel above `csmFuel`) -/
-theorem C14_terminates_transCron (hp : 0 ≤ prev) :
+theorem C14_terminates_transCron :
     CronTrigger.NextFireTime goTime goClock (locOfZone z) ct prev fuel ≠ none := by
   rw [trans_nextFireTime f hwf z hz ct hct prev hmin hmax fuel hfuel]
   intro h
-  exact C14_terminates f hwf z prev hp hz (ofOutcome_none _ h)
+  exact C14_terminates f hwf z prev hmin hz (ofOutcome_none _ h)
 
 /-- C14 totality: a value strictly after `prev`, or `ErrTriggerExpired` -/
-theorem C14_total_transCron (hp : 0 ≤ prev) :
+theorem C14_total_transCron :
     (∃ r, CronTrigger.NextFireTime goTime goClock (locOfZone z) ct prev fuel = some (r, none) ∧ prev < r) ∨
       CronTrigger.NextFireTime goTime goClock (locOfZone z) ct prev fuel = some (0, some "ErrTriggerExpired") := by
   rw [trans_nextFireTime f hwf z hz ct hct prev hmin hmax fuel hfuel]
-  rcases C14_total f hwf z prev hp hz with ⟨r, h, hr⟩ | h
+  rcases C14_total f hwf z prev hmin hz with ⟨r, h, hr⟩ | h
   · exact Or.inl ⟨r, by rw [h]; rfl, hr⟩
   · exact Or.inr (by rw [h]; rfl)
 
@@ -126,7 +126,7 @@ end main
 
 section fixed
 variable (f : Fields) (hwf : WellFormed f = true) (c : Int) (hc : -100000 ≤ c ∧ c ≤ 100000)
-  (ct : CronTrigger) (hct : ct.fields = mkFields f) (prev : Int) (hp : 0 ≤ prev) (hmax : prev ≤ 9223372036854775807)
+  (ct : CronTrigger) (hct : ct.fields = mkFields f) (prev : Int) (hp : -9223372036854775808 ≤ prev) (hmax : prev ≤ 9223372036854775807)
   (fuel : Nat) (hfuel : csmFuel + 1 ≤ fuel)
 include hwf hc hct hp hmax hfuel
 
@@ -188,6 +188,32 @@ example : CronTrigger.NextFireTime goTime goClock (locOfZone (fixedZone 0)) (mkT
 
 /-- … and the prev second is the floor `-2`, not the truncation `-1` -/
 example : (-1500000000 : Int) / 1000000000 = -2 ∧ Int.tdiv (-1500000000) 1000000000 = -1 := by decide
+
+/-- the transferred theorems at a `prev` before 1970: `0 0 12 * * ?`, UTC, one day and 1 ns before the epoch -/
+theorem exNoon_neg_transCron :
+    CronTrigger.NextFireTime goTime goClock (locOfZone (fixedZone 0)) (mkTrigger "0 0 12 * * ?" exNoon 0)
+      (-86400000000001) (csmFuel + 1) = some (-43200000000000, none) := by
+  rw [trans_nextFireTime_fixed exNoon exNoon_wf 0 (by omega) _ rfl _ (by omega) (by omega) _ (Nat.le_refl _),
+    exNoon_neg]
+  rfl
+
+example : (-43200000000000 : Int) % 1000000000 = 0 ∧ (-86400000000001 : Int) < -43200000000000 ∧
+    Matches exNoon (Civil.ofSeconds (-43200000000000 / 1000000000 + 0)) :=
+  C01_sound_transCron exNoon exNoon_wf 0 (by omega) _ rfl _ (by omega) (by omega) _ (Nat.le_refl _) _
+    exNoon_neg_transCron
+
+example : ∀ u : Int, -86400000000001 < u → u < -43200000000000 → u % 1000000000 = 0 →
+    ¬ Matches exNoon (Civil.ofSeconds (u / 1000000000 + 0)) :=
+  C02_minimal_transCron exNoon exNoon_wf 0 (by omega) _ rfl _ (by omega) (by omega) _ (Nat.le_refl _) _
+    exNoon_neg_transCron
+
+/-- C14 (arbitrary location) at a negative `prev`: the spring-forward location, half an hour and 1 ns before the epoch -/
+example : (-1800000000000 : Int) % 1000000000 = 0 ∧ (-1800000000001 : Int) < -1800000000000 ∧
+    Matches exHalf (reading exSpring (-1800000000000 / 1000000000)) :=
+  C14_sound_transCron exHalf exHalf_wf exSpring exSpring_bounded (mkTrigger "0 30 * * * ?" exHalf 1) rfl
+    (-1800000000001) (by omega) (by omega) (csmFuel + 1) (Nat.le_refl _) _
+    (by rw [trans_nextFireTime exHalf exHalf_wf exSpring exSpring_bounded _ rfl _ (by omega) (by omega) _
+          (Nat.le_refl _), exSpring_neg]; rfl)
 
 
 /-! ## the integer/slice helpers of the parser
